@@ -550,7 +550,8 @@ def probe_starvation(rng, tag='ps'):
     import subprocess
     t0 = time.time()
     proc = subprocess.Popen([vf.ZINOMA] + ['probe%d' % i for i in range(n)] + ['quick2'], cwd=d, env=e,
-                            stdout=subprocess.DEVNULL, stderr=subprocess.DEVNULL, start_new_session=True)
+                            stdout=subprocess.DEVNULL, stderr=subprocess.DEVNULL, start_new_session=True,
+                            preexec_fn=vf.reset_signals)
     V = {}
     done_at = None
     try:
